@@ -10,13 +10,14 @@ LEAN_MODULES = ["KmipModel.Props.C07"]
 RULE = ("seeded adaptive histories biased to the revealing orders (destroy the newest then create; restart then "
         "create; destroy everything, restart, create) by several clients, engine re-created on the same database file; "
         "a fifth of the creation templates carry a Unique Identifier attribute naming a destroyed object; "
+        "every other object must stay exactly as it was across a Destroy (stored-object monitor on full dumps); "
         "non-trivial = the request creates or destroys an object or addresses a destroyed identifier")
 ASSUMPTIONS = ["SQLite AUTOINCREMENT (sqlite_sequence) persists across connections: modelled by Store.nextUid, "
                "exercised here through engine re-creation on the same file"]
 PROFILE = {"ops": {"create": 10, "register": 8, "createKeyPair": 4, "deriveKey": 3, "destroy": 14, "get": 5,
                    "getAttributes": 3, "locate": 6, "activate": 2, "revoke": 2, "modifyAttribute": 1, "getAttributeList": 1},
            "groups": 0.05, "restart": 0.15, "template_uid": 0.2}
-MONITORS = [M.mon_c07]
+MONITORS = [M.mon_c07, M.mon_c05]      # mon_c05: an object changes only when a successful operation addresses it
 
 
 def nontrivial(j, o):
